@@ -31,6 +31,7 @@ ASSUMPTIONS = [
     "fuzz strings that cannot be written as a Python string literal in a module (NUL) are used stand-alone only",
 ]
 NSHARDS = {'quick': 16, 'thorough': 16}
+RULE += (' Directed probes: malformed directives in eleven shapes; unfinishable syntax incl. bare prompts x three layouts x three styles (finding F52 for blocks in front of a broken one); broken-module-run: six kinds of broken text (braces, percent signs) x two layouts x three verbosities through the native runner, the sound neighbours must pass and the summary must come back.')
 CPU_BUDGET_S = 10
 
 FRAGS = ['>>> ', '... ', '>>>', '...', '    ', '  ', '\n', '\n', '\n', '(', ')', '[', ']', '{', '}', "'", '"', "'''", '"""',
